@@ -1,5 +1,179 @@
-import GraphrsModel.ObsComm
+/-
+  C12 — is_partition accepts exactly the true partitions, and anything else is rejected by
+  modularity with NotAPartition.
+-/
+import GraphrsModel.Model.Community
+import Mathlib.Data.List.Perm.Subperm
 namespace Graphrs
-/-- placeholder while the framework is brought up: replaced by the property theorems -/
-theorem C12_coarsens_nil (c : List (List Nat)) : coarsens c [] = true := rfl
+
+/-! ### `sinsert` / `dedup` / `sumNat` -/
+
+theorem mem_sinsert {α} [DecidableEq α] (s : List α) (x y : α) :
+    y ∈ sinsert s x ↔ y ∈ s ∨ y = x := by
+  unfold sinsert
+  by_cases h : x ∈ s
+  · rw [if_pos h]
+    constructor
+    · exact Or.inl
+    · rintro (h' | rfl)
+      · exact h'
+      · exact h
+  · rw [if_neg h]; simp
+
+theorem nodup_sinsert {α} [DecidableEq α] (s : List α) (x : α) (hs : s.Nodup) :
+    (sinsert s x).Nodup := by
+  unfold sinsert
+  by_cases h : x ∈ s
+  · rw [if_pos h]; exact hs
+  · rw [if_neg h]
+    rw [List.nodup_append]
+    refine ⟨hs, by simp, ?_⟩
+    intro a ha b hb
+    rw [List.mem_singleton] at hb
+    subst hb
+    intro hab
+    subst hab
+    exact h ha
+
+theorem mem_foldl_sinsert {α} [DecidableEq α] (l acc : List α) (y : α) :
+    y ∈ l.foldl sinsert acc ↔ y ∈ acc ∨ y ∈ l := by
+  induction l generalizing acc with
+  | nil => simp
+  | cons x xs ih =>
+    rw [List.foldl_cons, ih, mem_sinsert, List.mem_cons]
+    constructor
+    · rintro ((h | h) | h)
+      · exact Or.inl h
+      · exact Or.inr (Or.inl h)
+      · exact Or.inr (Or.inr h)
+    · rintro (h | h | h)
+      · exact Or.inl (Or.inl h)
+      · exact Or.inl (Or.inr h)
+      · exact Or.inr h
+
+theorem nodup_foldl_sinsert {α} [DecidableEq α] (l acc : List α) (hacc : acc.Nodup) :
+    (l.foldl sinsert acc).Nodup := by
+  induction l generalizing acc with
+  | nil => exact hacc
+  | cons x xs ih => exact ih _ (nodup_sinsert acc x hacc)
+
+theorem mem_dedup {α} [DecidableEq α] (l : List α) (y : α) : y ∈ dedup l ↔ y ∈ l := by
+  unfold dedup
+  rw [mem_foldl_sinsert]
+  simp
+
+theorem nodup_dedup {α} [DecidableEq α] (l : List α) : (dedup l).Nodup :=
+  nodup_foldl_sinsert l [] List.nodup_nil
+
+theorem dedup_subperm {α} [DecidableEq α] (l : List α) : (dedup l).Subperm l :=
+  (nodup_dedup l).subperm (fun x hx => (mem_dedup l x).mp hx)
+
+theorem length_dedup_le {α} [DecidableEq α] (l : List α) : (dedup l).length ≤ l.length :=
+  (dedup_subperm l).length_le
+
+theorem length_dedup_eq_iff {α} [DecidableEq α] (l : List α) :
+    (dedup l).length = l.length ↔ l.Nodup := by
+  constructor
+  · intro h
+    have hp : (dedup l).Perm l := (dedup_subperm l).perm_of_length_le (Nat.le_of_eq h.symm)
+    exact hp.nodup_iff.mp (nodup_dedup l)
+  · intro h
+    have hp : (dedup l).Perm l :=
+      (List.perm_ext_iff_of_nodup (nodup_dedup l) h).mpr (fun x => mem_dedup l x)
+    exact hp.length_eq
+
+private theorem foldl_add_eq (l : List Nat) (a : Nat) :
+    l.foldl (· + ·) a = a + l.foldl (· + ·) 0 := by
+  induction l generalizing a with
+  | nil => simp
+  | cons x xs ih =>
+    rw [List.foldl_cons, List.foldl_cons, ih (a + x), ih (0 + x)]
+    omega
+
+theorem sumNat_map_length {α} (comms : List (List α)) :
+    sumNat (comms.map List.length) = (comms.flatMap id).length := by
+  unfold sumNat
+  induction comms with
+  | nil => rfl
+  | cons c cs ih =>
+    rw [List.map_cons, List.foldl_cons, foldl_add_eq, ih, List.flatMap_cons, List.length_append]
+    simp
+
+/-- the counting lemma: a duplicate-free list inside a duplicate-free list of the same length
+    covers it -/
+theorem subset_of_nodup_of_length {α} [DecidableEq α] (l names : List α) (hl : l.Nodup)
+    (hsub : ∀ x ∈ l, x ∈ names) (hlen : l.length = names.length) : ∀ x ∈ names, x ∈ l := by
+  have hp : l.Perm names := (hl.subperm hsub).perm_of_length_le (Nat.le_of_eq hlen.symm)
+  intro x hx
+  exact hp.symm.subset hx
+
+
+/-- The specification predicate is the statement of C12, literally. -/
+theorem C12_isPartitionSpec_iff (a : Abs) (comms : List (List Nat)) :
+    a.isPartitionSpec comms = true ↔
+      ((comms.flatMap id).Nodup ∧ (∀ x ∈ comms.flatMap id, a.hasNode x = true) ∧
+       (∀ x ∈ a.nodeNames, x ∈ comms.flatMap id)) := by
+  unfold Abs.isPartitionSpec
+  simp only [Bool.and_eq_true, beq_iff_eq, List.all_eq_true, List.contains_iff_mem]
+  rw [eq_comm, length_dedup_eq_iff]
+  exact and_assoc
+
+/-- **The model of the (repaired) `is_partition` accepts exactly the true partitions.**
+    Hypotheses: node names are pairwise distinct and `get_node` finds exactly them (both hold on
+    every reachable store), and every community is a set. -/
+theorem C12_is_partition_iff (s : Store) (comms : List (List Nat))
+    (hnd : s.getAllNodeNames.Nodup)
+    (hget : ∀ x, (s.getNode x).isSome = true ↔ x ∈ s.getAllNodeNames)
+    (hsets : ∀ c ∈ comms, c.Nodup) :
+    s.isPartition comms = true ↔
+      ((comms.flatMap id).Nodup ∧ (∀ x ∈ comms.flatMap id, x ∈ s.getAllNodeNames) ∧
+       (∀ x ∈ s.getAllNodeNames, x ∈ comms.flatMap id)) := by
+  -- `hsets` is not needed: the two counts already force every community to be a set
+  have _ := hsets
+  have hn : s.getAllNodes.length = s.getAllNodeNames.length := by
+    simp [Store.getAllNodes, Store.getAllNodeNames]
+  have hsum := sumNat_map_length comms
+  unfold Store.isPartition
+  simp only [Bool.and_eq_true, beq_iff_eq]
+  rw [hsum, hn]
+  generalize hflat : comms.flatMap id = flat
+  generalize hnames : s.getAllNodeNames = names at *
+  have hfilt_le := List.length_filter_le (fun n => (s.getNode n).isSome) flat
+  have hded_le := length_dedup_le (flat.filter fun n => (s.getNode n).isSome)
+  constructor
+  · rintro ⟨h1, h2⟩
+    have hfl : (flat.filter fun n => (s.getNode n).isSome).length = flat.length := by omega
+    have hdl : (dedup (flat.filter fun n => (s.getNode n).isSome)).length
+        = (flat.filter fun n => (s.getNode n).isSome).length := by omega
+    have hall := List.length_filter_eq_length_iff.mp hfl
+    have hfeq : flat.filter (fun n => (s.getNode n).isSome) = flat := List.filter_eq_self.mpr hall
+    have hnd_flat : flat.Nodup := by
+      have := (length_dedup_eq_iff _).mp hdl
+      rwa [hfeq] at this
+    have hsub : ∀ x ∈ flat, x ∈ names := fun x hx => (hget x).mp (hall x hx)
+    exact ⟨hnd_flat, hsub, subset_of_nodup_of_length flat names hnd_flat hsub h2⟩
+  · rintro ⟨hnd_flat, hsub, hcov⟩
+    have hp : flat.Perm names :=
+      (List.perm_ext_iff_of_nodup hnd_flat hnd).mpr (fun x => ⟨hsub x, hcov x⟩)
+    have hfeq : flat.filter (fun n => (s.getNode n).isSome) = flat :=
+      List.filter_eq_self.mpr (fun x hx => (hget x).mpr (hsub x hx))
+    rw [hfeq, (length_dedup_eq_iff flat).mpr hnd_flat]
+    exact ⟨hp.length_eq, hp.length_eq⟩
+
+/-- the counting check of the unrepaired code accepted the family [{a,b},{a}] on nodes {a,b,c}:
+    an overlap and an omission cancel -/
+theorem C12_old_count_check_unsound :
+    let names := [1, 2, 3]
+    let comms := [[1, 2], [1]]
+    ((comms.flatMap id).filter (fun x => names.contains x)).length = names.length ∧
+    sumNat (comms.map List.length) = names.length ∧ ¬ (comms.flatMap id).Nodup := by
+  decide
+
+/-- anything that is not a partition is rejected with NotAPartition -/
+theorem C12_not_a_partition (s : Store) (comms : List (List Nat)) (weighted : Bool) (res : Rat)
+    (h : s.isPartition comms = false) :
+    (match s.modularity comms weighted res with | .err .NotAPartition => True | _ => False) := by
+  unfold Store.modularity
+  simp [h]
+
 end Graphrs
